@@ -1,4 +1,7 @@
+mod c51;
+
 fn main() {
-    eprintln!("no sub-commands yet");
-    std::process::exit(2);
+    vf_kit::dispatch! {
+        "c51" => c51::C51,
+    }
 }
